@@ -315,6 +315,20 @@ impl Visitor<Diagnostic> for LibraryRenderer {
         Ok(())
     }
 
+    // 2.3.3.1
+    fn visit_enumerated_value(&mut self, node: &EnumeratedValue) -> Result<Self::Value, Diagnostic> {
+        match &node.type_name {
+            Some(type_name) => {
+                // No space is allowed on either side of the '#'
+                self.visit_type(type_name)?;
+                self.write("#");
+                self.write(node.value.original().as_str());
+                Ok(())
+            }
+            None => self.visit_id(&node.value),
+        }
+    }
+
     fn visit_enumerated_specification_values(
         &mut self,
         node: &EnumeratedSpecificationValues,
